@@ -42,6 +42,8 @@ func (r *SyncRing[T]) Init(cap int) {
 
 	r.cap = c
 	r.mask = c - 1
+	r.head = 0
+	r.tail = 0
 	r.values = make([]item[T], c)
 
 	for i := range r.values {
